@@ -151,6 +151,14 @@ class Harness:
             os.unlink(self.bin)  # the binary disappears before the launch
         if tool == "badopt" and kind != "sim":
             self.app.add_additional_options(["--threads", 2])  # a non-string option: Popen refuses
+        # the caller moves on to another directory after creating the wrapper: "home" is the
+        # directory the calling process is in when it makes its calls, not the one it was
+        # in when the wrapper was created
+        self.orig_cwd = self.home
+        later = os.path.join(self.dir, "later")
+        os.mkdir(later)
+        os.chdir(later)
+        self.home = os.getcwd()
         # count outermost clean_up() invocations from outside
         orig = self.app.clean_up
 
@@ -355,7 +363,7 @@ class Harness:
                     pass
         finally:
             try:
-                os.chdir(self.home)
+                os.chdir(self.orig_cwd)
             except OSError:
                 pass
             shutil.rmtree(self.dir, ignore_errors=True)
